@@ -24,7 +24,7 @@ THEOREM CoverAll ==
     BY <2>2 DEF InPieces, Rng
   <2>. QED BY <1>2, <2>1, <2>3 DEF WrapContains
 <1>. QED BY <1>1, <1>2
-=========================================================================
+
 (* the pieces are proper (non-empty, within the frame) and increasing, for every dimension size *)
 THEOREM ProperAll ==
   ASSUME NEW Lo \in Int, NEW Hi \in Int, NEW a \in Lo..Hi, NEW b \in Lo..Hi
